@@ -16,7 +16,9 @@ RULE = ('failing evaluations only: a random target (short, long (lists of 40+ it
         'raising callable, type mismatch, MatchError, all-branches-fail) is planted at a random position; in 10% of the '
         'cases the spec raises its own error after its last sub-evaluation returned normally with a caught failure '
         'below it (Not(Not(x)), Invoke(raising).specs(Not(x)), Match dict with a missing key after Not values, over '
-        'Not / Coalesce-with-default / Or / tuple, inside a chain, a dict value or a Coalesce branch); every '
+        'Not / Coalesce-with-default / Or / tuple, inside a chain, a dict value or a Coalesce branch); in 3% a list/dict '
+        'container that contains itself, with a failing T leaf, sits in argument position (Coalesce default=, S(x=), Call args, '
+        'Invoke.specs, T.method(arg)) or is a Fill value (the trace renders it: str(exc) must work); every '
         'scope[glom] call is recorded through scope={glom.glom: tracer} (parent scope identity, NO_PYFRAME flag, bbrepr '
         'of spec and target, len(), target identity, outcome); each recorded evaluation is rendered at 5 widths (50, 60, '
         '80, 110, 200) by calling format_target_spec_trace on the real scope; in 12% of the cases the same target object '
@@ -83,8 +85,14 @@ def trace_run(target, spec, width=None):
         except Exception:
             return None
 
+    repr_failed = []
+
     def fmt(v):
-        return core.bbrepr(v).replace("\\'", "'")
+        try:
+            return core.bbrepr(v).replace("\\'", "'")
+        except BaseException as re_:     # e.g. RecursionError on a container that contains itself
+            repr_failed.append(type(re_).__name__)
+            return '<bbrepr failed: %s>' % type(re_).__name__
 
     def tracer(t, s, scope):
         rec = {'parent': id(scope), 'flag': NO_PYFRAME in scope.maps[0], 'spec': fmt(s), 'target': fmt(t),
@@ -152,7 +160,8 @@ def trace_run(target, spec, width=None):
         ev_out.append(['err', eid(wrapped)])
         return {'events': ev_out, 'errors': [[n, t] for n, t in errs.values()], 'root_error': eid(wrapped),
                 'width': core.TRACE_WIDTH,
-                'impl': {'trace': getattr(exc, '_target_spec_trace', ''), 'message': text, 'str_failed': str_failed}}
+                'impl': {'trace': getattr(exc, '_target_spec_trace', ''), 'message': text,
+                         'str_failed': str_failed or ('bbrepr:' + repr_failed[0] if repr_failed else None)}}
     except Exception:
         return None
     return None
@@ -219,6 +228,40 @@ def returned_below(rng, g):
     return spec
 
 
+SELFREF_POS = ['coalesce_default', 's_kw', 'call_arg', 'invoke_spec', 't_method', 'fill']
+
+
+def build_selfref(sr):
+    """a spec with a list/dict container that contains itself and a failing T leaf, in argument position or as a
+    Fill value (the container is rendered in the trace: bbrepr must terminate)"""
+    import glom as G
+    leaf = G.T[sr.get('leaf', 'nokey')]
+    if sr['shape'] == 'list':
+        c = [leaf]
+        c.append(c)
+    else:
+        c = {'k': leaf}
+        c['self'] = c
+    pos = sr['pos']
+    if pos == 'coalesce_default':
+        spec = G.Coalesce(G.T['zz'], default=c)
+    elif pos == 's_kw':
+        spec = G.S(x=c)
+    elif pos == 'call_arg':
+        spec = G.Call(len, args=(c,))
+    elif pos == 'invoke_spec':
+        spec = G.Invoke(len).specs(c)
+    elif pos == 't_method':
+        spec = G.T.get('a', c)
+    else:
+        spec = G.Fill(c)
+    if sr.get('wrap') == 'tuple':
+        spec = (G.T, spec)
+    elif sr.get('wrap') == 'dict':
+        spec = {'v': spec}
+    return spec
+
+
 def generate(rng, tier, scale, **focus):
     want = (2500 if tier == 'quick' else 40000) * scale
     made = 0
@@ -240,6 +283,11 @@ def generate(rng, tier, scale, **focus):
             # the original error has a multi-line message (blank and caret-only lines included)
             spec = {'k': rng.choice(['tuple', 'pipe']), 'xs': [spec, g.fn(rng.choice(['raise_multiline', 'nested_glom_fail']))]}
         case = {'spec': spec, 'target': ic.enc(t), 'width': rng.choice(WIDTHS), '_gen': True}
+        if rng.random() < 0.03:
+            # a self-referential container below which a T leaf fails: str(exc) must still work
+            case = {'spec': {'k': 't', 'steps': []}, 'target': ic.enc({'a': 1}), 'width': rng.choice(WIDTHS), '_gen': True,
+                    'selfref': {'shape': rng.choice(['list', 'dict']), 'pos': rng.choice(SELFREF_POS),
+                                'leaf': rng.choice(['nokey', 'zz']), 'wrap': rng.choice([None, None, 'tuple', 'dict'])}}
         if rng.random() < 0.12:
             # the same target object already went through a failing call (and its trace was rendered)
             # before it was changed in place: the trace must show the target as it is NOW
@@ -264,7 +312,7 @@ def run_impl(case):
     import glom as G
     fns = {}
     target = ic.dec(case['target'], fns)
-    spec = ic.build(case['spec'], fns)
+    spec = build_selfref(case['selfref']) if case.get('selfref') else ic.build(case['spec'], fns)
     if case.get('stale_first'):
         try:
             G.glom(target, spec)
@@ -345,7 +393,7 @@ def _rerender(target, spec, width, rec):
 
 def key(case):
     return {'events': case.get('events'), 'width': case.get('width'), 'errors': case.get('errors'),
-            'stale_first': bool(case.get('stale_first'))}
+            'stale_first': bool(case.get('stale_first')), 'selfref': case.get('selfref')}
 
 
 def nontrivial(case, verdict):
@@ -358,6 +406,14 @@ def nontrivial(case, verdict):
 
 def shrink(case):
     from harness.props import c03
+    if case.get('selfref'):
+        sr = dict(case['selfref'])
+        if sr.get('wrap'):
+            sr['wrap'] = None
+            c = {k: v for k, v in case.items() if k in ('spec', 'target', 'width')}
+            c['selfref'] = sr
+            yield c
+        return
     for c in c03.shrink({'spec': case['spec'], 'target': case['target']}):
         c['width'] = case.get('width')
         if case.get('stale_first'):
